@@ -3,6 +3,7 @@
 // STUBS: see its_common.rs — TokenSpec.{mint, add_minter, remove_minter} with a ghost minter set initialised by the token constructor's proven behaviour (c11_token_constructor: owner and designated minter become minters); deployer model (address = f(deployer, salt), occupied address traps)
 // C11 (ids, write-once, roles after deployment), C07 (deployer authorisation).
 use super::__verif_its_common::*;
+use super::__verif_its_seed::*;
 use super::*;
 use soroban_sdk::crypto::ideal_hash;
 use soroban_sdk::model::{self, any};
